@@ -16,7 +16,7 @@ ID = "C09"
 LEVEL = "exploration"
 # a run stuck inside C code (beyond the reach of a Python signal handler) is
 # cut off by a watchdog thread after this many seconds (core._hard_hangs)
-RUN_HARD_TIMEOUT = 60
+RUN_HARD_TIMEOUT = 120
 RULE = ("each run = one curve (named 70%, toy 30%), one private scalar "
         "(structured: boundaries, leading-zero scalars, scalars whose public "
         "coordinates have leading zero bytes) and a chain of 2-7 persist / "
